@@ -46,48 +46,48 @@ type AnchorAssert struct {
 }
 
 type Contract struct {
-	Kind        string   // func, iface, functype, trusted
-	Target      string   // function key
-	PkgPath     string   // package the contract file belongs to ("" for trusted specs)
-	ParamNames  []string // for iface/functype/trusted: names given in header (receiver first)
-	ResNames    []string
-	Props       []string
-	Safety      []string // props owning the automatically generated safety obligations
-	SafetySet   bool
-	Requires    []*Clause
-	Ensures     []*Clause
-	Modifies    []Expr
-	ModSrc      []string
-	ModAll      bool // modifies *
-	HasMod      bool
-	Panics      []*Clause // may panic only if one of these holds
-	PanicsIff   bool
-	NoPanic     bool
-	Loops       map[int]*LoopSpec
-	Ghosts      []*GhostStmt
-	Asserts     []*AnchorAssert
-	Decreases   *Clause
-	Pure        bool // trusted: no heap effects, result is function of args (uninterpreted)
-	Inline      bool
-	NoOvf       bool
-	Skip        []string // safety classes not claimed for this function
-	CallAs      []*CallAs
-	PartialAnchors bool // `partial-anchors`: calls of an instrumented callee may remain without ghost update / assertion
-	NoShared    bool   // `nosharedwrites`: with `modifies *` (effects of callees are unconstrained) the function's own stores, map updates, appends and Once.Do calls must still hit memory allocated during the call
-	RecvAlias   string // contracts instantiated from a `methods` default: the name the clauses use for the receiver
-	FromDefault string // key of the `methods` default this contract was instantiated from
-	Dispatch    []*DispatchSpec // call sites of a function value dispatched over named methods (bound method values)
-	Also        []string  // functype contracts this function must also satisfy
-	CapReq      []*Clause // preconditions on captured variables, asserted where the closure is created
-	Assumes     []*Clause // assumed in the function's own proof, not checked at call sites (listed as assumptions)
-	ModelParams []QVar    // kind "model": typed parameters
-	ModelRes    []QVar
-	Ovf         bool
-	Allocates   bool // trusted: may allocate
-	File        string
-	Line        int
-	Trusted     bool // from /verif/trusted (assumed)
-	Uses        []string
+	Kind           string   // func, iface, functype, trusted
+	Target         string   // function key
+	PkgPath        string   // package the contract file belongs to ("" for trusted specs)
+	ParamNames     []string // for iface/functype/trusted: names given in header (receiver first)
+	ResNames       []string
+	Props          []string
+	Safety         []string // props owning the automatically generated safety obligations
+	SafetySet      bool
+	Requires       []*Clause
+	Ensures        []*Clause
+	Modifies       []Expr
+	ModSrc         []string
+	ModAll         bool // modifies *
+	HasMod         bool
+	Panics         []*Clause // may panic only if one of these holds
+	PanicsIff      bool
+	NoPanic        bool
+	Loops          map[int]*LoopSpec
+	Ghosts         []*GhostStmt
+	Asserts        []*AnchorAssert
+	Decreases      *Clause
+	Pure           bool // trusted: no heap effects, result is function of args (uninterpreted)
+	Inline         bool
+	NoOvf          bool
+	Skip           []string // safety classes not claimed for this function
+	CallAs         []*CallAs
+	PartialAnchors bool            // `partial-anchors`: calls of an instrumented callee may remain without ghost update / assertion
+	NoShared       bool            // `nosharedwrites`: with `modifies *` (effects of callees are unconstrained) the function's own stores, map updates, appends and Once.Do calls must still hit memory allocated during the call
+	RecvAlias      string          // contracts instantiated from a `methods` default: the name the clauses use for the receiver
+	FromDefault    string          // key of the `methods` default this contract was instantiated from
+	Dispatch       []*DispatchSpec // call sites of a function value dispatched over named methods (bound method values)
+	Also           []string        // functype contracts this function must also satisfy
+	CapReq         []*Clause       // preconditions on captured variables, asserted where the closure is created
+	Assumes        []*Clause       // assumed in the function's own proof, not checked at call sites (listed as assumptions)
+	ModelParams    []QVar          // kind "model": typed parameters
+	ModelRes       []QVar
+	Ovf            bool
+	Allocates      bool // trusted: may allocate
+	File           string
+	Line           int
+	Trusted        bool // from /verif/trusted (assumed)
+	Uses           []string
 }
 
 // DispatchSpec: `dispatch fn#k: (*T).M1, (*T).M2` - at the k-th call of the function value fn the verifier splits
